@@ -397,6 +397,24 @@ def run_case(case):
         k = int(np.argmax(np.abs(Es - Eref)))
         mon.close(Es, Eref, 1e-9, 'C32:sampler-energy',
                   lambda: '%s sampler: occupation %s E() %r brute force %r %s' % (name, occs[k].tolist(), Es[k], Eref[k], sdesc), scale=scale)
+        # the same configuration reached through update(): a request that changes nothing (occupy occupied sites, empty empty ones), then
+        # a move to the next configuration of the list
+        with mon.guard('C32:sampler-update-E'):
+            occl = [o.astype(int) for o in occs]
+            for r in range(min(len(occl) - 1, 6)):
+                a, b = occl[r].copy(), occl[r + 1].copy()
+                if vac is not None: a[vac] = -1
+                MC.start(a)
+                mob = [i for i in range(len(b)) if vac is None or i != vac]
+                on = [i for i in mob if occl[r][i] == 1]
+                off = [i for i in mob if occl[r][i] == 0]
+                MC.update(on[:2], off[:2])   # no-op request
+                E0 = MC.E()
+                MC.update([i for i in mob if occl[r][i] == 0 and b[i] == 1], [i for i in mob if occl[r][i] == 1 and b[i] == 0])
+                E1 = MC.E()
+                mon.close(np.array([E0, E1]), np.array([Eref[r], Eref[r + 1]]), 1e-9, 'C32:sampler-energy-after-update',
+                          lambda: '%s sampler: E() after a no-op update %r (brute force %r), after moving to the next configuration %r (brute force %r) %s'
+                                  % (name, E0, Eref[r], E1, Eref[r + 1], sdesc), scale=scale)
         mon.count('eval:C32:sampler-energy', len(occs) - 1)
         # the lists the sampler holds (after the jump-network evaluator appended to them)
         with mon.guard('C32:sampler-lists'):
